@@ -29,6 +29,7 @@ type asample struct {
 	Stack []string `json:"stack"` // leaf first
 	V     []int64  `json:"v"`
 	B     bool     `json:"b"` // carries the diff-base mark (observed on the profile handed to the Symbolizer)
+	T     string   `json:"t"` // value of the label "k" ("" = none)
 }
 type asrc struct {
 	Name    string    `json:"name"`
@@ -75,6 +76,7 @@ type event struct {
 	ASI      int       `json:"asi"`  // sample index given with the request (web), 0 = none
 	ARel     string    `json:"arel"` // relative_percentages given with the request (web): "", "t", "f"
 	AG       string    `json:"ag"`   // granularity given with the request (web): "", "functions", "files"
+	ATF      []string  `json:"atf"`  // tagfocus given with the request (web)
 	Text     string    `json:"text"`
 }
 
@@ -119,7 +121,11 @@ func concrete(s *asrc, idx int, seed int64, drop, keep []string, unsym bool) *pr
 			k := fnIdx(f)
 			locs = append(locs, vlib.ALoc{Map: m, Rel: int64(3 + 2*k), Lines: []vlib.ALine{{Fn: fn[f], Line: int64(10 + k)}}})
 		}
-		ss = append(ss, vlib.ASample{Locs: locs, Vals: a.V})
+		smp := vlib.ASample{Locs: locs, Vals: a.V}
+		if a.T != "" {
+			smp.Lab = []vlib.ASLab{{K: "k", V: []string{a.T}}}
+		}
+		ss = append(ss, smp)
 	}
 	c := vlib.NewConc(seed)
 	c.StrMode = 0
@@ -192,6 +198,20 @@ func randomLine(r *vlib.Rand, cli bool) line {
 		}
 		return line{"ignore=" + anchored(ns), event{Ev: "assign", Opt: "ignore", Names: ns}}
 	case k < 5:
+		if r.Intn(4) == 0 {
+			// tag filters restricted to the key k
+			vals := [][]string{{"x"}, {"y"}, {"x", "y"}, nil}[r.Intn(4)]
+			if cli && vals == nil {
+				vals = []string{"x"}
+			}
+			opt := []string{"tf", "ti"}[r.Intn(2)]
+			name := map[string]string{"tf": "tagfocus", "ti": "tagignore"}[opt]
+			text := name + "="
+			if vals != nil {
+				text += "k=" + anchored(vals)
+			}
+			return line{text, event{Ev: "assign", Opt: opt, Names: vals}}
+		}
 		if r.Intn(2) == 0 {
 			ns := pick()
 			if !cli && r.Intn(4) == 0 {
@@ -294,7 +314,11 @@ func (s symRec) Symbolize(mode string, srcs plugin.MappingSources, p *profile.Pr
 		for _, f := range vlib.FramesOf(sm) {
 			st = append(st, f.Name)
 		}
-		e.Samples = append(e.Samples, asample{Stack: st, V: append([]int64{}, sm.Value...), B: sm.DiffBaseSample()})
+		t := ""
+		if vs := sm.Label["k"]; len(vs) > 0 {
+			t = vs[0]
+		}
+		e.Samples = append(e.Samples, asample{Stack: st, V: append([]int64{}, sm.Value...), B: sm.DiffBaseSample(), T: t})
 	}
 	s.rc.add(e)
 	return nil
@@ -362,7 +386,7 @@ func randomSource(r *vlib.Rand, name string) asrc {
 		for d := 0; d < depth; d++ {
 			st = append(st, fnNames[r.Intn(len(fnNames))])
 		}
-		s.Samples = append(s.Samples, asample{Stack: st, V: []int64{int64(r.Intn(6)), int64(r.Intn(40))}})
+		s.Samples = append(s.Samples, asample{Stack: st, V: []int64{int64(r.Intn(6)), int64(r.Intn(40))}, T: []string{"", "", "x", "y"}[r.Intn(4)]})
 	}
 	return s
 }
@@ -572,6 +596,10 @@ func oneRun(id int, r *vlib.Rand) {
 				e.AG = []string{"files", "functions"}[r.Intn(2)]
 				q.Set("g", e.AG)
 			}
+			if r.Intn(4) == 0 {
+				e.ATF = [][]string{{"x"}, {"y"}}[r.Intn(2)]
+				q.Set("tf", "k="+anchored(e.ATF))
+			}
 			reqs = append(reqs, line{"/top?" + q.Encode(), e})
 		}
 		lines = append(kept, reqs...)
@@ -687,6 +715,9 @@ func oneRun(id int, r *vlib.Rand) {
 		if e.AH == nil {
 			e.AH = []string{}
 		}
+		if e.ATF == nil {
+			e.ATF = []string{}
+		}
 		if e.Bases == nil {
 			e.Bases = []asrc{}
 		}
@@ -723,5 +754,5 @@ func main() {
 	for i := 0; i < n; i++ {
 		oneRun(i, r)
 	}
-	run.Finish("whole runs of driver.PProf observed at the plug-in boundaries: 1-3 sources and 0-2 -base or -diff_base sources (each failing with probability 1/5), profile-level drop/keep frame rules, sources that are symbolized or address-only (the names then come from the Symbolizer plug-in, before the drop rules apply), x command-line mode, interactive sessions of 1-5 lines (focus / ignore / hide / show / granularity / sample_index / relative_percentages assignments, top / tree / traces reports with per-command arguments, rejected and ignored lines) or a web server answering /top requests with per-request options, concretised with varying id layouts; every boundary event validated by TLC against the machine of Pprof.tla; non-trivial = distinct (mode, sources, lines)")
+	run.Finish("whole runs of driver.PProf observed at the plug-in boundaries: 1-3 sources and 0-2 -base or -diff_base sources (each failing with probability 1/5), profile-level drop/keep frame rules, sources that are symbolized or address-only (the names then come from the Symbolizer plug-in, before the drop rules apply), x command-line mode, interactive sessions of 1-5 lines (focus / ignore / hide / show / tagfocus / tagignore / granularity / sample_index / relative_percentages assignments, top / tree / traces reports with per-command arguments, rejected and ignored lines) or a web server answering /top requests with per-request options, concretised with varying id layouts; every boundary event validated by TLC against the machine of Pprof.tla; non-trivial = distinct (mode, sources, lines)")
 }
